@@ -58,7 +58,9 @@ CURVES = {
     "gls254": dict(model="gls254", cfg=dict(affine="PointAffine", endo=(-1, 0),
                                              lookups=["lookup16_affine", "lookup16_affine_zeta", "lookup8_affine",
                                                       "lookup8_affine_zeta", "lookup4_affine", "lookup4_affine_zeta",
-                                                      "lookup16", "lookup8", "lookup4"],
+                                                      "lookup16", "lookup8", "lookup4", "lookup16_affine_vartime",
+                                                      "lookup16_affine_zeta_vartime", "lookup16_vartime",
+                                                      "lookup16_zeta_vartime"],
                                              recoders={"recode5_u128": (26, 5, -15, 16, 0, 8),
                                                        "recode4_u128": (32, 4, -7, 8, 0, 8),
                                                        "recode5_u64": (13, 5, -15, 16, 0, 16)},
